@@ -110,37 +110,43 @@ func rC07Messages(w *World, r *Report) {
 // R11.8
 func rC11RequiredVerbatim(w *World, r *Report) {
 	ru := r.Rule("R11.8", "the custom message given to Required() reaches Option.SetRequired (and so IsRequiredErr) unmodified", 2)
-	fn := w.Fn("(*getoptions.GetOpt).Required$1")
 	outer := w.Fn("(*getoptions.GetOpt).Required")
-	if fn == nil || outer == nil {
+	if outer == nil || len(outer.AnonFuncs) == 0 {
 		ru.Undecided("anchor", "-", "Required modifier not found")
 		return
 	}
-	for _, c := range callsTo(fn, "(*option.Option).SetRequired") {
-		// the argument is the captured errTxt; its stores in the outer function must be msg[0] or ""
-		p := NewProv(w, outer)
-		var fv ssa.Value = c.Common().Args[1]
-		if u, ok := fv.(*ssa.UnOp); ok {
-			fv = u.X
-		}
-		good := false
-		if free, ok := fv.(*ssa.FreeVar); ok {
-			// find the binding
-			eachInstr(outer, func(in ssa.Instruction) {
-				mc, ok := in.(*ssa.MakeClosure)
-				if !ok || mc.Fn != ssa.Value(fn) {
-					return
-				}
-				for i, f := range fn.FreeVars {
-					if f == free && i < len(mc.Bindings) {
-						p.Slice(mc.Bindings[i])
-						good = true
+	for _, fn := range outer.AnonFuncs {
+		for _, c := range callsTo(fn, "(*option.Option).SetRequired") {
+			// a modifier for the no-message case may hand over the empty text itself
+			if s, ok := constString(c.Common().Args[1]); ok && s == "" {
+				ru.OK("Required/message", w.IPos(c), "SetRequired(\"\"): no custom message")
+				continue
+			}
+			// the argument is the captured errTxt; its stores in the outer function must be msg[0] or ""
+			p := NewProv(w, outer)
+			var fv ssa.Value = c.Common().Args[1]
+			if u, ok := fv.(*ssa.UnOp); ok {
+				fv = u.X
+			}
+			good := false
+			if free, ok := fv.(*ssa.FreeVar); ok {
+				// find the binding
+				eachInstr(outer, func(in ssa.Instruction) {
+					mc, ok := in.(*ssa.MakeClosure)
+					if !ok || mc.Fn != ssa.Value(fn) {
+						return
 					}
-				}
-			})
+					for i, f := range fn.FreeVars {
+						if f == free && i < len(mc.Bindings) {
+							p.Slice(mc.Bindings[i])
+							good = true
+						}
+					}
+				})
+			}
+			ops := p.OpKinds()
+			ru.Check(good && len(ops) == 0, "Required/message", w.IPos(c), "SetRequired(msg[0]) verbatim", "the custom required message is transformed before it is stored ("+strings.Join(ops, ",")+")")
 		}
-		ops := p.OpKinds()
-		ru.Check(good && len(ops) == 0, "Required/message", w.IPos(c), "SetRequired(msg[0]) verbatim", "the custom required message is transformed before it is stored ("+strings.Join(ops, ",")+")")
 	}
 	if st := w.Fn("(*option.Option).SetRequired"); st != nil {
 		ok := false
